@@ -6,7 +6,7 @@ use serde_json::{json, Value};
 use std::collections::BTreeMap;
 use std::io::{BufRead, Read, Write};
 use std::panic::{catch_unwind, AssertUnwindSafe};
-use std::path::Path;
+use std::path::{Path, PathBuf};
 
 use std::alloc::{GlobalAlloc, Layout, System};
 use std::sync::atomic::{AtomicUsize, Ordering};
@@ -66,6 +66,10 @@ mod meta;
 mod wire;
 #[path = "gen_serve.rs"]
 mod serve;
+#[path = "gen_archive.rs"]
+mod archive;
+#[path = "gen_bidir.rs"]
+mod bidir;
 
 use serve::verif_wrap as sv;
 
@@ -270,8 +274,110 @@ fn frame_roundtrip(case: &Value) -> Value {
     json!({"equal": bad.is_empty() && matches!(end, Ok(None)), "mismatches": bad})
 }
 
+fn fp_json(root: &Path) -> Value {
+    let m = meta::discover_local_fingerprints(root).unwrap_or_default();
+    let mut o = serde_json::Map::new();
+    for (p, f) in m {
+        let content = std::fs::read(root.join(&p)).unwrap_or_default();
+        o.insert(p.to_string_lossy().into_owned(), json!({"b3": hex(&f.blake3), "data": hex(&content), "ftype": format!("{:?}", f.ftype)}));
+    }
+    Value::Object(o)
+}
+
+fn action_of(s: &str) -> reconcile::Action {
+    use reconcile::{Action, ConflictKind};
+    match s {
+        "Noop" => Action::Noop,
+        "PropagateAtoB" => Action::PropagateAtoB,
+        "PropagateBtoA" => Action::PropagateBtoA,
+        "ConvergeIdentical" => Action::ConvergeIdentical,
+        "DeleteA" => Action::DeleteA,
+        "DeleteB" => Action::DeleteB,
+        "Conflict(BothChanged)" => Action::Conflict(ConflictKind::BothChanged),
+        _ => Action::Conflict(ConflictKind::DeleteVsModify),
+    }
+}
+
+/// one apply step: {"a": {path: hex}, "b": {...}, "rel": "...", "action": "...", "host": "h"}
+fn bisync_apply(case: &Value, base: &Path) -> Value {
+    let world = base.join("bworld");
+    let _ = std::fs::remove_dir_all(&world);
+    let (ra, rb) = (world.join("A"), world.join("B"));
+    std::fs::create_dir_all(&ra).unwrap();
+    std::fs::create_dir_all(&rb).unwrap();
+    write_tree(&ra, &case["a"]);
+    write_tree(&rb, &case["b"]);
+    let a = meta::discover_local_fingerprints(&ra).unwrap_or_default();
+    let b = meta::discover_local_fingerprints(&rb).unwrap_or_default();
+    let before = json!({"A": fp_json(&ra), "B": fp_json(&rb)});
+    let mut common = reconcile::FpMap::new();
+    let mut conflicts = Vec::new();
+    let rel = PathBuf::from(case["rel"].as_str().unwrap());
+    let r = bidir::verif_wrap::v_apply(&ra, &rb, &rel, action_of(case["action"].as_str().unwrap()), &a, &b, case["host"].as_str().unwrap_or("vhost"), &mut common, &mut conflicts);
+    let common_j: BTreeMap<String, String> = common.iter().map(|(p, f)| (p.to_string_lossy().into_owned(), hex(&f.blake3))).collect();
+    json!({"ok": r.is_ok(), "err": r.err().map(|e| e.to_string()), "before": before, "A": tree_of(&ra), "B": tree_of(&rb), "common": common_j,
+           "conflicts": conflicts.iter().map(|p| p.to_string_lossy().into_owned()).collect::<Vec<_>>()})
+}
+
+/// a history: steps [{"set": ["A", path, hex|null]}, {"run": true}, {"archive": "delete"|"truncate"|"garbage"|"foreign"|"version"|"empty"}, {"swap": true}]
+fn bisync_history(case: &Value, base: &Path) -> Value {
+    let world = base.join("hworld");
+    let _ = std::fs::remove_dir_all(&world);
+    let (ra, rb, home) = (world.join("A"), world.join("B"), world.join("home"));
+    for d in [&ra, &rb, &home] {
+        std::fs::create_dir_all(d).unwrap();
+    }
+    std::env::set_var("HOME", &home);
+    std::env::set_var("HOSTNAME", "vhost");
+    let mut runs = Vec::new();
+    let mut swapped = false;
+    for step in case["steps"].as_array().unwrap() {
+        if let Some(s) = step.get("set") {
+            let root = if s[0].as_str() == Some("A") { &ra } else { &rb };
+            let p = root.join(s[1].as_str().unwrap());
+            if s[2].is_null() {
+                let _ = std::fs::remove_file(&p);
+            } else {
+                if let Some(d) = p.parent() {
+                    std::fs::create_dir_all(d).unwrap();
+                }
+                std::fs::write(&p, unhex(s[2].as_str().unwrap())).unwrap();
+            }
+        } else if step.get("swap").is_some() {
+            swapped = !swapped;
+        } else if let Some(how) = step.get("archive").and_then(Value::as_str) {
+            let (x, y) = if swapped { (&rb, &ra) } else { (&ra, &rb) };
+            let ap = archive::archive_path(&archive::root_pair_hash(x, y));
+            match how {
+                "delete" => { let _ = std::fs::remove_file(&ap); }
+                "empty" => { let _ = std::fs::write(&ap, b""); }
+                "truncate" => { if let Ok(b) = std::fs::read(&ap) { let _ = std::fs::write(&ap, &b[..b.len() / 2]); } }
+                "garbage" => { let _ = std::fs::write(&ap, b"{\"not\": \"an archive\"}"); }
+                "version" => { if let Ok(t) = std::fs::read_to_string(&ap) { let _ = std::fs::write(&ap, t.replace("\"format_version\": 1", "\"format_version\": 2")); } }
+                "foreign" => { if let Ok(t) = std::fs::read_to_string(&ap) {
+                    let me = archive::root_pair_hash(x, y);
+                    let _ = std::fs::write(&ap, t.replace(&me, &"0".repeat(me.len()))); } }
+                _ => {}
+            }
+        } else if step.get("run").is_some() {
+            let (x, y) = if swapped { (&rb, &ra) } else { (&ra, &rb) };
+            let before = json!({"A": fp_json(&ra), "B": fp_json(&rb)});
+            let opts = bidir::BidirOptions { dry_run: step["run"].as_str() == Some("dry"), verbose: false };
+            let r = bidir::run_bisync(x, y, &opts);
+            let ap = archive::archive_path(&archive::root_pair_hash(x, y));
+            let arch: Value = std::fs::read(&ap).ok().and_then(|b| serde_json::from_slice(&b).ok()).unwrap_or(Value::Null);
+            let entries: Vec<String> = arch.get("entries").and_then(Value::as_object).map(|m| m.keys().cloned().collect()).unwrap_or_default();
+            runs.push(json!({"ok": r.is_ok(), "err": r.err().map(|e| e.to_string()), "before": before, "A": fp_json(&ra), "B": fp_json(&rb),
+                             "archive_entries": entries, "archive_epoch": arch.get("epoch").cloned().unwrap_or(Value::Null), "swapped": swapped}));
+        }
+    }
+    json!({"runs": runs})
+}
+
 fn run_case(case: &Value, base: &Path) -> Value {
     match case["fn"].as_str().unwrap_or("") {
+        "bisync_apply" => bisync_apply(case, base),
+        "bisync_history" => bisync_history(case, base),
         "frame_read" => frame_read(case),
         "frame_roundtrip" => frame_roundtrip(case),
         "hub_step" => hub_step(case, base),
